@@ -146,6 +146,10 @@ impl<'a> P<'a> {
             let e = self.expr();
             self.expect(b')');
             bx(sources::cache::Cache::<BoxSrc, Q>::from(e))
+        } else if self.eat("units(") {
+            let e = self.expr();
+            self.expect(b')');
+            units_src(e)
         } else if self.eat("rt(") {
             let e = self.expr();
             self.expect(b')');
@@ -155,6 +159,63 @@ impl<'a> P<'a> {
         } else {
             panic!("harness: unknown source expression at {}", self.i)
         }
+    }
+}
+
+/// the source unit-system wrapper: items come out as metres; the harness unwraps them again
+#[cfg(feature = "units")]
+#[derive(Clone)]
+struct UnitSrc(sources::unit_system::UnitSystem<BoxSrc, dimensioned::si::Meter<Q>>);
+#[cfg(feature = "units")]
+impl Source for UnitSrc {
+    type Output = Q;
+    fn source(&mut self) -> Option<Q> {
+        use dimensioned::traits::Dimensioned;
+        self.0.source().map(|m: dimensioned::si::Meter<Q>| *m.value_unsafe())
+    }
+}
+#[cfg(feature = "units")]
+fn units_src(e: BoxSrc) -> BoxSrc {
+    bx(UnitSrc(sources::unit_system::UnitSystem::from(e)))
+}
+#[cfg(not(feature = "units"))]
+fn units_src(_e: BoxSrc) -> BoxSrc {
+    panic!("harness: built without the unit-system wrappers")
+}
+
+/// a plain summing sink whose `finalize` is not an `Option` (what the sink unit wrapper's `Finalize` needs)
+#[derive(Clone, Default)]
+pub struct SumSink(Q);
+impl Sink<Q> for SumSink {
+    fn sink(&mut self, x: Q) {
+        self.0 = self.0 + x;
+    }
+}
+impl Finalize for SumSink {
+    type Output = Q;
+    fn finalize(self) -> Q {
+        self.0
+    }
+}
+#[cfg(feature = "units")]
+#[derive(Clone)]
+pub struct UnitSumSink(sinks::unit_system::UnitSystem<SumSink, dimensioned::si::Meter<Q>>);
+#[cfg(feature = "units")]
+impl DynSink for UnitSumSink {
+    fn sink(&mut self, x: Q) {
+        Sink::sink(&mut self.0, dimensioned::si::Meter::new(x))
+    }
+    fn ff(&mut self, x: Q) -> String {
+        self.sink(x);
+        self.fin()
+    }
+    fn fin(&self) -> String {
+        use dimensioned::traits::Dimensioned;
+        let m: dimensioned::si::Meter<Q> = Finalize::finalize(self.0.clone());
+        m.value_unsafe().r()
+    }
+    fn clone_box(&self) -> Box<dyn DynSink> {
+        Box::new(self.clone())
     }
 }
 
@@ -272,6 +333,8 @@ pub fn build_sink(kind: &str) -> Option<Box<dyn DynSink>> {
         "sink_meanvar" => Box::new(sinks::mean_variance::MeanVariance::<Q>::default()),
         "sink_stats" => Box::new(sinks::statistics::Statistics::<Q>::default()),
         "sink_collect" => Box::new(sinks::collect::Collect::<Vec<Q>>::default()),
+        #[cfg(feature = "units")]
+        "sink_unit_sum" => Box::new(UnitSumSink(sinks::unit_system::UnitSystem::from(SumSink::default()))),
         _ => return None,
     })
 }
